@@ -67,6 +67,30 @@ PROPS = {
         "open_statements": ["internal_edge_set (every delta)", "internal_edge_walk", "internal_edge_sorted_perm (every delta)", "external_edge_set"],
         "assumptions": COMMON_ASSUME,
     },
+    "C01": {
+        "claim": "Theorems for every input of every numeric instance (every f64 bit pattern, NaN/inf included): the front end always yields a base cell < 12; a latitude failing -pi/2<=lat<=pi/2 (NaN included) is rejected; for every pair of bit patterns of h+l, h-l whose scaled truncations do not exceed nside (the code's debug assertion) the cell number is < 12*4^depth at every depth 1..29 (hash_range at Float). The whole hash_v2 (front end with libm calls as parameters + bit-level back end) is modelled and compared bit for bit with Layer::hash in dev and release builds: 30 depths x structured positions (40% on seams: meridians k*pi/4 +-ulps, transition latitude +-ulps, poles, cell centres/vertices/edge points of random cells +-ulps, lon in [-8pi,8pi], -0.0) + malformed latitudes. Oracle: point-in-diamond against an independent projection with tolerance 1e-9+2^d*2e-14 cell units, range, guards. Finding F8 (|lon|>=2pi) found this way and repaired.",
+        "note": "PARTIAL proof: range/guard/base-cell theorems proved for all inputs; containment over the reals (hash_real_contains, the seam inequalities) is an open statement; rounding of libm and of the front-end products is not carried by proof (validated by oracle).",
+        "level": "proof",
+        "trusted_base": ["Model/Num.lean + Model/F64.lean: the numeric interface; at Float it mirrors the Rust operation sequence (Lean Float ops and glibc libm = Rust f64 methods, compared bit for bit on every run); Rust `as uN` casts and the exponent-bit trick are pure functions on bit patterns (F64.truncU, F64.expAdd)", "Model/Hash.lean: hand-written generic mirror of xpm1_and_q, d0h_lh_in_d0c, hash_v2"],
+        "open_statements": ["hash_real_contains (over the reals)", "hash_real_contains_perturbed"],
+        "assumptions": COMMON_ASSUME + ["glibc sin/cos as called by Lean's Float and by Rust's f64 agree bit for bit (checked on every run by the correspondence itself)"],
+    },
+    "C02": {
+        "claim": "Theorem for EVERY pair of 64-bit patterns standing for h+l and h-l (negative, NaN, zero, subnormal or positive below 8), every base cell and every 1<=d<=d'<=29: the depth-d cell number is the depth-d' cell number shifted right by 2(d'-d) bits (backend_prefix), transported to hash_v2 at Float (hash_prefix: the front end takes no depth), plus depth 0 (base cell = top bits). No hypothesis on libm: the exponent-bit scaling commutes with truncation (F64 lemmas, all bit patterns), the nside->nside-1 clamp commutes with the shift, interleaving commutes with the shift (C18). The hypotheses (patterns small, scaled index <= nside) are evaluated by the model on every generated position and compared with 'ok'. Correspondence: hash at all 30 depths for each structured position; oracle: prefix relation on the implementation for all consecutive depth pairs.",
+        "note": "Proof of the back end for all bit patterns under the code's own debug assertion; that the front end produces small patterns (|h+-l| < 8, never -0.0) is monitored on every run, not proved (it would need IEEE sign rules through sin/cos). Trusted: Lean kernel, F64 bit model of `as u32` and of the exponent trick (validated against the hardware through the correspondence).",
+        "level": "proof",
+        "trusted_base": ["Model/Num.lean + Model/F64.lean: the numeric interface; at Float it mirrors the Rust operation sequence (Lean Float ops and glibc libm = Rust f64 methods, compared bit for bit on every run); Rust `as uN` casts and the exponent-bit trick are pure functions on bit patterns (F64.truncU, F64.expAdd)"],
+        "open_statements": ["frontend_small (|h+-l| < 8 and no -0.0 for every f64 position)"],
+        "assumptions": COMMON_ASSUME,
+    },
+    "C17": {
+        "claim": "Theorems for every input of every numeric instance: proj/unproj reject arguments outside [-pi/2,pi/2] / [-2,2] (NaN included); pm1_offset_decompose yields an offset in {1,3,5,7}; base_cell_from_proj_coo returns a base cell < 12 for EVERY pair of inputs (repaired behaviour of finding F10). proj, unproj, base_cell_from_proj_coo are modelled generically and compared bit for bit at Float in dev and release builds on structured positions and plane points (facet boundaries, |y|=1 +-ulps, towards the poles, x in {0,8,-8}, out of range). Oracles: independent Calabretta&Roukema formulae (cap seams identified), both round trips with the property's tolerances, sign of x, base cell = depth-0 hash away from borders and containment on borders.",
+        "note": "PARTIAL proof: guards/range theorems proved for all inputs; proj=spec and the inverse laws over the reals are open statements; 1e-14 rad round-trip accuracy is validated by oracle only.",
+        "level": "proof",
+        "trusted_base": ["Model/Num.lean + Model/F64.lean: the numeric interface; at Float it mirrors the Rust operation sequence (Lean Float ops and glibc libm = Rust f64 methods, compared bit for bit on every run); Rust `as uN` casts and the exponent-bit trick are pure functions on bit patterns (F64.truncU, F64.expAdd)", "Model/Proj.lean: hand-written generic mirror of proj, unproj, base_cell_from_proj_coo and helpers"],
+        "open_statements": ["proj_eq_spec", "unproj_proj", "proj_unproj", "base_cell_from_proj_coo_spec"],
+        "assumptions": COMMON_ASSUME,
+    },
     "C15": {
         "claim": 'Theorems: each pack pass never lengthens the list, pack ends on a fixed point of the pass (a further pass merges nothing), to_lower_depth rejects new_depth>=depth_max. The fixed-depth builder is modelled as a state machine with explicit drain points and compared with the code for all push-sequence families x 9 capacities x 9 depths; pack/to_lower_depth on exhaustive universes and random trees; oracles check pushed-set equality, map preservation, no four full siblings, the lower-depth rule.',
         "note": 'PARTIAL proof: structural pack theorems proved; pack_sem/fixed_builder_sem/to_lower_depth_sem open. Trusted: Lean kernel, hand-written model, Vec capacity assumption.',
